@@ -33,6 +33,10 @@ def decode_request(prop, req):
 PROPS = {}
 
 PROPS["C09"] = {
+    "design_ref": "4.9",
+    "technique": "Lean 4 proof: verified regex-equivalence decision procedure (Antimirov derivatives + checked bisimulation certificate) on regexes regenerated from iri/src/_regex.rs vs RFC 3987 ABNF; differential vs regex crate/oxiri",
+    "level_text": "Proof (unbounded, all strings): the validators' regexes, regenerated from iri/src/_regex.rs on every run, accept exactly the RFC 3987 IRI / irelative-ref / IRI-reference languages and classify disjointly (kernel-checked soundness of the decision procedure; the per-regex obligation is evaluated by native_decide). Resolution (RFC 3986 5.2) is an executable Lean model compared with Iri::resolve/BaseIri on generated pairs: that part is differential, not proof.",
+    "level_note": "Trusted: RFC ABNF transcription; extract.py regex translator (cross-checked per case against the regex crate); native_decide (Lean compiler) for the four language obligations; oxiri internals only observed. Known findings: four RFC 3986 deviations/panics of resolution on dot-segment / authority-less corner cases.",
     "tables": ["regexes"],
     "lean_targets": ["SophiaProofs.Props.C09", "SophiaProofs.Audit.C09"],
     "theorems": ["iri_regex_exact", "irel_regex_exact", "iriref_is_union", "abs_rel_disjoint"],
